@@ -67,6 +67,46 @@
 (* install replaces the counter on which the earlier caller was already    *)
 (* recorded; violates OneObject and CounterOK for K >= 2 and is invisible  *)
 (* for K <= 1 (no two callers between lookup and record).                  *)
+(*                                                                         *)
+(* Reload (MaxReloads >= 1).  The rule of a resource can be REPLACED while *)
+(* entries are in flight: Reload(r, a, fresh) puts the table Alt (a=TRUE)  *)
+(* or Rules (a=FALSE) in force for r.  `fresh' says whether a statistic    *)
+(* parameter of the rule changed (cache capacity, or the rule was removed  *)
+(* and added again):                                                       *)
+(*   fresh = FALSE  (identical or merely modified rule - new thresholds):  *)
+(*                  the counters are KEPT (the clause of property C14);    *)
+(*                  the new thresholds apply to the same figures;          *)
+(*   fresh = TRUE   the new rule starts counting from the reload (`base'). *)
+(* What C06 demands after a changing reload: every entry still releases    *)
+(* exactly the unit IT occupied.  An entry admitted BEFORE the reload      *)
+(* occupied a unit of the old rule's figure; whether it also counts        *)
+(* against the new rule is left open by the statement, so two designs are  *)
+(* admissible and both are checked: CountOld = FALSE (the new counters     *)
+(* start at zero; the exit of an earlier entry releases its unit on the    *)
+(* old counters, which nobody reads any more - it must NOT touch the new   *)
+(* ones) and CountOld = TRUE (the figures are carried over).  The          *)
+(* design-independent demand is FigureInRange:                             *)
+(*     |live entries for v admitted since the reload|                      *)
+(*         <= figure used for v  <=  |all live entries for v|              *)
+(* in every state; Conserved / CounterOK state the exact figure of each    *)
+(* design; Capped bounds the entries admitted under the rule in force.     *)
+(* Every live entry is stamped with the rule version `ver' it was admitted *)
+(* under.  ExitCurrent = TRUE is the fourth deliberately broken variant    *)
+(* (with CountOld = FALSE): the exit releases on whatever counter is       *)
+(* current for the value - an earlier entry lowers the figure of entries   *)
+(* admitted after the reload; violates FigureInRange, CounterOK,           *)
+(* ZeroAfterDrain (the figure ends below zero) and DecisionOK.             *)
+(* A reload may also change the SELECTOR of the rule (sel = TRUE: another  *)
+(* position / attachment key; not a statistic parameter, the counters are  *)
+(* kept): the value the rule in force would now read from the arguments of *)
+(* an entry already in flight (`now', remapped by the constant Remap) is   *)
+(* no longer the value the entry was admitted with.  The entry occupies a  *)
+(* unit of the value it was ADMITTED with and releases that one; the       *)
+(* ExitCurrent variant re-reads the arguments at the exit and releases the *)
+(* unit of `now' (violates CounterOK and FigureInRange even without fresh  *)
+(* counters).                                                              *)
+(* Reloads are taken between admissions (no caller inside the admission    *)
+(* path): a bound of the model.                                            *)
 (***************************************************************************)
 EXTENDS HotParamArgs, FiniteSets, TLC
 
@@ -81,10 +121,16 @@ CONSTANTS
     K,          \* 0: admission is one step.  K >= 1: check and record are separate steps, at most K callers in between
     DropZero,   \* FALSE: the design.  TRUE: broken variant (a cell that returns to zero is removed; record skips a missing cell)
     Fresh,      \* FALSE: every value has its cell from the start.  TRUE: cells are created on demand (Lookup / Create are steps, K >= 1)
-    BothInstall \* FALSE: the design.  TRUE: broken variant (Create installs a counter without re-checking that the value still has none)
+    BothInstall,\* FALSE: the design.  TRUE: broken variant (Create installs a counter without re-checking that the value still has none)
+    Alt,        \* the alternative rule table (same shape as Rules) a reload can put in force
+    MaxReloads, \* bound on the number of reloads (0: the rules never change)
+    CountOld,   \* design choice after a reload with fresh counters: FALSE = the new rule counts from zero, TRUE = figures carried over
+    ExitCurrent,\* FALSE: the design.  TRUE: broken variant (an exit releases on the counter that is current, whoever was counted there,
+                \* for the value the rule in force reads from the arguments at that moment)
+    Remap       \* [Values -> Values \cup {None}]: what a rule with a changed selector reads from the arguments of an entry admitted for v
 
 VARIABLES
-    live,       \* id -> [res, v] of every live (admitted, not exited) entry
+    live,       \* id -> [res, v, ver, now] of every live (admitted, not exited) entry (now: the value the rule in force reads today)
     inflight,   \* [Res -> [Values -> SUBSET ids]]
     cnt,        \* implementation: [Res -> [Values -> Int]]
     lastv,      \* value carried by the most recent request (any resource)
@@ -94,12 +140,17 @@ VARIABLES
     has,        \* [Res -> SUBSET Values]: values whose cell is present in the cache (changes only when DropZero or Fresh)
     look,       \* id -> [res, v, hit]: callers that have looked the value up and not yet created / read its cell (Fresh, K >= 1)
     made,       \* [Res -> [Values -> Nat]]: number of counter objects installed for the value so far
+    alt,        \* [Res -> BOOLEAN]: the table in force for the resource (FALSE: Rules, TRUE: Alt)
+    ver,        \* [Res -> Nat]: version of the rule in force (number of changing reloads of the resource)
+    base,       \* [Res -> Nat]: the version with which the counters in use started (last reload with fresh counters)
+    nrel,       \* number of reloads so far
     h           \* history (scenario for the conformance driver; hidden by VIEW)
 
-vars == <<live, inflight, cnt, lastv, nid, dec, pend, has, look, made, h>>
-view == <<live, inflight, cnt, lastv, dec, pend, has, look, made>>
+vars == <<live, inflight, cnt, lastv, nid, dec, pend, has, look, made, alt, ver, base, nrel, h>>
+view == <<live, inflight, cnt, lastv, dec, pend, has, look, made, alt, ver, base, nrel>>
 
-Thr(r, v) == ThrOf(Rules[r].items, Rules[r].thr, v)
+Table(r)  == IF alt[r] THEN Alt[r] ELSE Rules[r]
+Thr(r, v) == ThrOf(Table(r).items, Table(r).thr, v)
 
 \* ---------------------------------------------------------------------------
 \* property-level admission predicate
@@ -118,6 +169,10 @@ Init ==
     /\ has = [r \in Res |-> IF Fresh THEN {} ELSE Values]
     /\ look = << >>
     /\ made = [r \in Res |-> [v \in Values |-> IF Fresh THEN 0 ELSE 1]]
+    /\ alt = [r \in Res |-> FALSE]
+    /\ ver = [r \in Res |-> 0]
+    /\ base = [r \in Res |-> 0]
+    /\ nrel = 0
     /\ h = << >>
 
 \* room for one more caller inside the admission path
@@ -139,13 +194,14 @@ Request(r, v) ==
     /\ dec' = [prop |-> Admit(inflight, r, v), impl |-> ImplAdmit(cnt, r, v)]
     /\ lastv' = IF v # None THEN v ELSE lastv
     /\ IF Admit(inflight, r, v) /\ InUse < MaxLive
-         THEN /\ live' = live @@ ((nid + 1) :> [res |-> r, v |-> v])
+         THEN /\ live' = live @@ ((nid + 1) :> [res |-> r, v |-> v, ver |-> ver[r], now |-> v])
               /\ inflight' = IF v = None THEN inflight ELSE [inflight EXCEPT ![r][v] = @ \cup {nid + 1}]
               /\ cnt' = IF v = None THEN cnt ELSE [cnt EXCEPT ![r][v] = @ + 1]
               /\ h' = Append(h, [op |-> "req", id |-> nid + 1, res |-> r, v |-> v])
          ELSE /\ ~Admit(inflight, r, v)        \* (the MaxLive bound only prunes the model)
               /\ UNCHANGED <<live, inflight, cnt>>
               /\ h' = Append(h, [op |-> "req", id |-> nid + 1, res |-> r, v |-> v])
+    /\ UNCHANGED <<alt, ver, base, nrel>>
 
 \* an entry on a resource without a rule: always admitted, occupies nothing, but its arguments
 \* pass through the same pooled option objects
@@ -153,11 +209,11 @@ Other(o, v) ==
     /\ nid < MaxOps
     /\ InUse < MaxLive
     /\ nid' = nid + 1
-    /\ live' = live @@ ((nid + 1) :> [res |-> o, v |-> v])
+    /\ live' = live @@ ((nid + 1) :> [res |-> o, v |-> v, ver |-> 0, now |-> v])
     /\ lastv' = IF v # None THEN v ELSE lastv
     /\ dec' = [prop |-> TRUE, impl |-> TRUE]
     /\ h' = Append(h, [op |-> "req", id |-> nid + 1, res |-> o, v |-> v])
-    /\ UNCHANGED <<inflight, cnt, pend, has, look, made>>
+    /\ UNCHANGED <<inflight, cnt, pend, has, look, made, alt, ver, base, nrel>>
 
 \* K >= 1, first half of the admission path (rule-check slot): the caller reads the cell, decides, and is parked
 \* with its decision before the statistic slot ("chain.checked")
@@ -172,7 +228,7 @@ Check(r, v) ==
     /\ made' = Made(r, v)
     /\ lastv' = IF v # None THEN v ELSE lastv
     /\ h' = Append(h, [op |-> "chk", id |-> nid + 1, res |-> r, v |-> v])
-    /\ UNCHANGED <<live, inflight, cnt, look>>
+    /\ UNCHANGED <<live, inflight, cnt, look, alt, ver, base, nrel>>
 
 \* Fresh, K >= 1: the admission path at its finest grain.  First step: the caller looks the value up (shared lock) and
 \* learns whether the value has a counter NOW; it may be overtaken by any other caller before its next step
@@ -185,7 +241,7 @@ Lookup(r, v) ==
     /\ look' = look @@ ((nid + 1) :> [res |-> r, v |-> v, hit |-> v \in has[r]])
     /\ lastv' = v
     /\ h' = Append(h, [op |-> "look", id |-> nid + 1, res |-> r, v |-> v])
-    /\ UNCHANGED <<live, inflight, cnt, dec, pend, has, made>>
+    /\ UNCHANGED <<live, inflight, cnt, dec, pend, has, made, alt, ver, base, nrel>>
 
 \* second step: a caller that missed takes the exclusive lock and installs a fresh counter (zero) - in the design only if
 \* the value STILL has none (the re-check); then every caller reads the value's counter and decides, and is parked before
@@ -202,7 +258,7 @@ Create(id) ==
            /\ dec' = [prop |-> Admit(inflight, p.res, p.v), impl |-> ImplAdmit(cnt2, p.res, p.v)]
            /\ pend' = pend @@ (id :> [res |-> p.res, v |-> p.v, prop |-> Admit(inflight, p.res, p.v), impl |-> ImplAdmit(cnt2, p.res, p.v)])
     /\ h' = Append(h, [op |-> "crt", id |-> id])
-    /\ UNCHANGED <<live, inflight, lastv, nid>>
+    /\ UNCHANGED <<live, inflight, lastv, nid, alt, ver, base, nrel>>
 
 \* second half (statistic slot): an admitted caller becomes a live entry and is counted - for the value it was
 \* checked with, whatever happened to the other entries of that value in between; a refused one just leaves
@@ -211,27 +267,51 @@ Record(id) ==
     /\ LET p == pend[id] IN
         /\ pend' = [i \in DOMAIN pend \ {id} |-> pend[i]]
         /\ IF p.prop
-             THEN /\ live' = live @@ (id :> [res |-> p.res, v |-> p.v])
+             THEN /\ live' = live @@ (id :> [res |-> p.res, v |-> p.v, ver |-> ver[p.res], now |-> p.v])
                   /\ inflight' = IF p.v = None THEN inflight ELSE [inflight EXCEPT ![p.res][p.v] = @ \cup {id}]
                   /\ cnt' = IF p.v = None \/ p.v \notin has[p.res] THEN cnt ELSE [cnt EXCEPT ![p.res][p.v] = @ + 1]
              ELSE UNCHANGED <<live, inflight, cnt>>
     /\ h' = Append(h, [op |-> "rec", id |-> id])
-    /\ UNCHANGED <<lastv, nid, dec, has, look, made>>
+    /\ UNCHANGED <<lastv, nid, dec, has, look, made, alt, ver, base, nrel>>
 
 Exit(id) ==
     /\ id \in DOMAIN live
     /\ LET e == live[id]
            \* the value the implementation-shaped layer releases
-           iv == IF Alias /\ e.v # None THEN lastv ELSE e.v
+           iv == IF Alias /\ e.v # None THEN lastv ELSE IF ExitCurrent THEN e.now ELSE e.v
+           \* is the entry counted on the counters in use?  (an entry admitted before a reload with fresh counters occupies a unit of
+           \* the OLD counters unless the design carries the figures over; its exit releases THAT unit.)  ExitCurrent: never asked
+           mine == e.res \notin Res \/ CountOld \/ ExitCurrent \/ e.ver >= base[e.res]
        IN  /\ live' = [i \in DOMAIN live \ {id} |-> live[i]]
            /\ inflight' = IF e.res \in Res /\ e.v # None
                             THEN [inflight EXCEPT ![e.res][e.v] = @ \ {id}] ELSE inflight
-           /\ cnt' = IF e.res \in Res /\ iv # None /\ iv \in has[e.res]
+           /\ cnt' = IF e.res \in Res /\ mine /\ iv # None /\ iv \in has[e.res]
                             THEN [cnt EXCEPT ![e.res][iv] = IF DropZero /\ @ - 1 <= 0 THEN 0 ELSE @ - 1] ELSE cnt
-           /\ has' = IF DropZero /\ e.res \in Res /\ iv # None /\ iv \in has[e.res] /\ cnt[e.res][iv] - 1 <= 0
+           /\ has' = IF DropZero /\ e.res \in Res /\ mine /\ iv # None /\ iv \in has[e.res] /\ cnt[e.res][iv] - 1 <= 0
                             THEN [has EXCEPT ![e.res] = @ \ {iv}] ELSE has
     /\ h' = Append(h, [op |-> "exit", id |-> id])
-    /\ UNCHANGED <<lastv, nid, dec, pend, look, made>>
+    /\ UNCHANGED <<lastv, nid, dec, pend, look, made, alt, ver, base, nrel>>
+
+\* the rule of resource r is replaced while entries are in flight (see the header): table a in force from now on; fresh = a
+\* statistic parameter changed, the counters in use from now on are new ones; sel = the selector changed (counters kept)
+Reload(r, a, fresh, sel) ==
+    /\ nrel < MaxReloads
+    /\ pend = << >> /\ look = << >>
+    /\ nrel' = nrel + 1
+    /\ alt' = [alt EXCEPT ![r] = a]
+    /\ ver' = IF a # alt[r] \/ fresh \/ sel THEN [ver EXCEPT ![r] = @ + 1] ELSE ver
+    /\ live' = IF sel THEN [id \in DOMAIN live |-> IF live[id].res = r /\ live[id].now # None
+                                                    THEN [live[id] EXCEPT !.now = Remap[@]] ELSE live[id]]
+                     ELSE live
+    /\ base' = IF fresh THEN [base EXCEPT ![r] = ver'[r]] ELSE base
+    /\ IF fresh /\ ~CountOld
+         THEN /\ inflight' = [inflight EXCEPT ![r] = [v \in Values |-> {}]]
+              /\ cnt' = [cnt EXCEPT ![r] = [v \in Values |-> 0]]
+              /\ has' = [has EXCEPT ![r] = IF Fresh THEN {} ELSE Values]
+              /\ made' = [made EXCEPT ![r] = [v \in Values |-> IF Fresh THEN 0 ELSE 1]]
+         ELSE UNCHANGED <<inflight, cnt, has, made>>
+    /\ h' = Append(h, [op |-> "reload", res |-> r, alt |-> a, fresh |-> fresh, sel |-> sel])
+    /\ UNCHANGED <<lastv, nid, dec, pend, look>>
 
 Next ==
     \/ \E r \in Res, v \in Values \cup {None} : Request(r, v)
@@ -241,6 +321,7 @@ Next ==
     \/ \E id \in DOMAIN look : Create(id)
     \/ \E id \in DOMAIN pend : Record(id)
     \/ \E id \in DOMAIN live : Exit(id)
+    \/ \E r \in Res, a \in BOOLEAN, fresh \in BOOLEAN, sel \in BOOLEAN : Reload(r, a, fresh, sel)
 
 Spec == Init /\ [][Next]_vars
 
@@ -249,20 +330,32 @@ Spec == Init /\ [][Next]_vars
 
 LiveFor(r, v) == { id \in DOMAIN live : live[id].res = r /\ live[id].v = v }
 
+\* ... those admitted since the counters in use started (= all of them as long as no reload brought fresh counters)
+LiveSince(r, v) == { id \in LiveFor(r, v) : live[id].ver >= base[r] }
+\* ... those admitted under the rule version in force (= all of them as long as the rule was never changed)
+LiveCur(r, v)   == { id \in LiveFor(r, v) : live[id].ver = ver[r] }
+\* the entries the figure in use stands for, per design (see the header)
+Counted(r, v)   == IF CountOld THEN LiveFor(r, v) ELSE LiveSince(r, v)
+
 \* the per-value in-flight figure always equals the true set of live entries for that value
-Conserved == \A r \in Res, v \in Values : inflight[r][v] = LiveFor(r, v)
+Conserved == \A r \in Res, v \in Values : inflight[r][v] = Counted(r, v)
 \* ... and so does the integer cell of the implementation
-CounterOK == \A r \in Res, v \in Values : cnt[r][v] = Cardinality(LiveFor(r, v))
+CounterOK == \A r \in Res, v \in Values : cnt[r][v] = Cardinality(Counted(r, v))
+\* what the statement demands whatever the design does with earlier entries at a reload: nobody but the entries admitted since
+\* the reload can lower the figure, and it never exceeds the live entries
+FigureInRange == \A r \in Res, v \in Values :
+                    Cardinality(LiveSince(r, v)) <= cnt[r][v] /\ cnt[r][v] <= Cardinality(LiveFor(r, v))
 \* never more live entries for a value than its threshold - plus, with K callers inside the admission path at a
 \* time, the K - 1 others that saw room at the same moment (K <= 1: exactly the threshold)
 Slack     == IF K > 1 THEN K - 1 ELSE 0
-Capped    == \A r \in Res, v \in Values : Cardinality(LiveFor(r, v)) <= Thr(r, v) + Slack
+\* (entries admitted under the rule in force: a reload may lower a threshold below the entries already in flight)
+Capped    == \A r \in Res, v \in Values : Cardinality(LiveCur(r, v)) <= Thr(r, v) + Slack
 \* ... counting the admitted callers that are still parked before their record step as well
 PassedFor(r, v) == { id \in DOMAIN pend : pend[id].res = r /\ pend[id].v = v /\ pend[id].prop }
 PendCapped == \A r \in Res, v \in Values :
-                 Cardinality(LiveFor(r, v)) + Cardinality(PassedFor(r, v)) <= Thr(r, v) + Slack
+                 Cardinality(LiveCur(r, v)) + Cardinality(PassedFor(r, v)) <= Thr(r, v) + Slack
 \* NOT an invariant for K >= 2 (TLC must find the overshoot: it shows that the callers really overlap in the model)
-CappedStrict == \A r \in Res, v \in Values : Cardinality(LiveFor(r, v)) <= Thr(r, v)
+CappedStrict == \A r \in Res, v \in Values : Cardinality(LiveCur(r, v)) <= Thr(r, v)
 \* returns to zero when everything has exited
 ZeroAfterDrain == (DOMAIN live = {}) => \A r \in Res, v \in Values : inflight[r][v] = {} /\ cnt[r][v] = 0
 \* the cell-based decision is the property-level decision
@@ -271,7 +364,8 @@ DecisionOK == dec.prop = dec.impl
 \* drops a cell: DropZero = FALSE), and it has one exactly when some caller created it
 OneObject == \A r \in Res, v \in Values : made[r][v] <= 1 /\ (DropZero \/ (made[r][v] = 1 <=> v \in has[r]))
 
-TypeOK == /\ nid \in 0..MaxOps /\ DOMAIN live \subseteq 1..MaxOps /\ DOMAIN pend \subseteq 1..MaxOps
+TypeOK == /\ nrel \in 0..MaxReloads /\ \A r \in Res : base[r] <= ver[r] /\ ver[r] <= nrel
+          /\ nid \in 0..MaxOps /\ DOMAIN live \subseteq 1..MaxOps /\ DOMAIN pend \subseteq 1..MaxOps
           /\ DOMAIN look \subseteq 1..MaxOps
           /\ DOMAIN live \cap DOMAIN pend = {} /\ DOMAIN live \cap DOMAIN look = {} /\ DOMAIN pend \cap DOMAIN look = {}
           /\ Cardinality(DOMAIN pend) + Cardinality(DOMAIN look) <= K
